@@ -51,6 +51,16 @@ MatchShadow(p, j) ==
   /\ r.Lidx = j.lidx /\ r.Lhtlc = j.lhtlc /\ r.Ridx = j.ridx /\ r.Rhtlc = j.rhtlc
   /\ PChain(r.LC) = JChain(j.LC) /\ PChain(r.RC) = JChain(j.RC)
   /\ PLog(r.L) = JLog(j.L) /\ PLog(r.R) = JLog(j.R)
+\* C02: the forwarding packages on disk (read back through LoadFwdPkgs of the reloaded channel)
+JFwd(j) == [k \in 1..Len(j) |-> [h |-> j[k].h, adds |-> j[k].adds,
+                                 sfs |-> [i \in 1..Len(j[k].sfs) |-> <<j[k].sfs[i][1], j[k].sfs[i][2]>>],
+                                 ack |-> JSet(j[k].ack)]]
+ConformFwd == (Good /\ Last.sherr = "") => \A p \in Party : disk[p].fwd = JFwd(Last.sh[p].fwd)
+
+\* C02: "each channeldb write is one atomic kvdb transaction": an API call commits at most one read-write
+\* transaction (counted from the bbolt file's meta pages), so call boundaries are all the crash points there are
+AtMostOneTx == Good => \A p \in Party : Last.ntx[p] <= 1 /\ (p # Last.p => Last.ntx[p] = 0)
+
 ReloadOpens   == Live => Last.sherr \in {"", "skipped"}
 Shadowed == Good /\ Last.sherr = ""
 ConformShadowCounters == Shadowed => \A p \in Party : LET r == Restored(p) j == Last.sh[p] IN
